@@ -91,6 +91,8 @@ pub struct GenParams {
     /// permille of variables whose domain is limited to at most two values (keeps the search space small
     /// while allowing more variables, e.g. many nearly fixed tasks)
     pub small_dom_permille: u32,
+    /// generate literals defined by predicates (`new_literal_for_predicate`)
+    pub pred_literals: bool,
 }
 
 impl GenParams {
@@ -116,6 +118,7 @@ impl GenParams {
             max_tasks: 4,
             max_dur: 3,
             small_dom_permille: 0,
+            pred_literals: true,
         }
     }
 }
@@ -148,7 +151,7 @@ pub fn model_strategy(p: &GenParams) -> BoxedStrategy<Model> {
 }
 
 pub fn build_vars(p: &GenParams, rv: &[RawVar]) -> Vec<VarDecl> {
-    let mut vars = vec![];
+    let mut vars: Vec<VarDecl> = vec![];
     let mut space: u64 = 1;
     for (kind, lb, size, mask, _) in rv {
         let room = (p.space_limit / space).max(1);
@@ -170,8 +173,22 @@ pub fn build_vars(p: &GenParams, rv: &[RawVar]) -> Vec<VarDecl> {
                 }
                 VarDecl::Sparse { values: vals }
             }
-            _ => {
-                if room >= 2 {
+            k => {
+                let targets: Vec<usize> = vars.iter().enumerate().filter(|(_, d): &(usize, &VarDecl)| !d.is_boolean()).map(|(i, _)| i).collect();
+                if room >= 2 && k == 7 && !targets.is_empty() && p.pred_literals {
+                    // a literal which is defined to be the truth value of a predicate over an earlier variable
+                    let var = targets[*mask as usize % targets.len()];
+                    let d: &VarDecl = &vars[var];
+                    let span = (d.ub() as i64 - d.lb() as i64 + 3) as u64;
+                    let val = (d.lb() as i64 - 1 + ((*mask as u64 >> 3) % span) as i64) as i32;
+                    let kind = match size % 4 {
+                        0 => PKind::Ge,
+                        1 => PKind::Le,
+                        2 => PKind::Eq,
+                        _ => PKind::Ne,
+                    };
+                    VarDecl::PredLit { pred: Pred { var, kind, val } }
+                } else if room >= 2 {
                     VarDecl::Bool
                 } else {
                     VarDecl::Interval { lb, ub: lb }
@@ -186,13 +203,18 @@ pub fn build_vars(p: &GenParams, rv: &[RawVar]) -> Vec<VarDecl> {
 
 /// the planted assignment: constraints are (usually) adjusted so that it satisfies them
 pub fn build_witness(vars: &[VarDecl], rv: &[RawVar]) -> Vec<i32> {
-    vars.iter()
-        .zip(rv)
-        .map(|(d, r)| {
-            let vals = d.values();
-            vals[pick(r.4, vals.len())]
-        })
-        .collect()
+    let mut w: Vec<i32> = vec![];
+    for (d, r) in vars.iter().zip(rv) {
+        let v = match d {
+            VarDecl::PredLit { pred } => pred.holds(w[pred.var] as i64) as i32,
+            _ => {
+                let vals = d.values();
+                vals[pick(r.4, vals.len())]
+            }
+        };
+        w.push(v);
+    }
+    w
 }
 
 struct Cx<'a> {
@@ -305,7 +327,7 @@ impl Cx<'_> {
 pub fn build_cons(p: &GenParams, vars: &[VarDecl], w: &[i32], rc: &RawCons, index: usize) -> Option<Posted> {
     let (kind, a, s, mode_pick, lit_pick, tag) = rc;
     let plant = ((*lit_pick as u32 * 1000) >> 16) < p.plant_permille;
-    let bools: Vec<usize> = vars.iter().enumerate().filter(|(_, d)| matches!(d, VarDecl::Bool)).map(|(i, _)| i).collect();
+    let bools: Vec<usize> = vars.iter().enumerate().filter(|(_, d)| d.is_boolean()).map(|(i, _)| i).collect();
     let allow_dup = ((a[11] as u32 * 1000) >> 16) < p.dup_vars_permille;
     let mut cx = Cx { p, w, plant, vars, bools, a, s, ai: 0, si: 0, allow_dup, used: vec![] };
     if vars.is_empty() {
